@@ -1,6 +1,6 @@
 """C18 - results reflect the object's current contents, not earlier calls (E2: operation-history explorer).
 
-Every sequence of operations up to depth d over a 14-operation alphabet (accessor calls, in-place edits, watershed
+Every sequence of operations up to depth d over an 18-operation alphabet (accessor calls, in-place edits, watershed
 calls on other shapes / other objects, a reader call) is executed on freshly built objects in a freshly forked child
 (so no hidden state leaks between histories); afterwards an observation battery is compared with the same battery
 computed in a FRESH INTERPRETER on a freshly constructed object with the same contents.
@@ -25,8 +25,8 @@ FREQ2 = np.array([0.06, 0.08, 0.11, 0.15, 0.21])
 DIR1 = np.arange(8) * 45.0
 DIR2 = np.arange(8) * 22.5 + 10.0  # same size, other spacing: the bin width changes
 OPS = ["hs", "tp", "dd", "smooth", "crsd", "stats_unknown", "set_efth", "set_ds_dir", "set_da_dir", "set_freq",
-       "ws_shapeA", "ws_shapeB", "other_object", "reader"]
-EDITS = {"set_efth": 0, "set_ds_dir": 1, "set_da_dir": 2, "set_freq": 3}
+       "ws_shapeA", "ws_shapeB", "other_object", "reader", "efth_values_inplace", "coords_dir", "coords_freq", "da_values_inplace"]
+EDITS = {"set_efth": 0, "set_ds_dir": 1, "set_da_dir": 2, "set_freq": 3, "efth_values_inplace": 0, "coords_dir": 1, "coords_freq": 3, "da_values_inplace": 4}
 
 
 def efth(which):
@@ -44,11 +44,12 @@ def build(content):
     """fresh Dataset ds and independent DataArray da with the given contents (tuple of 4 bits)"""
     import xarray as xr
 
-    e, dsd, dad, fr = content
+    e, dsd, dad, fr = content[:4]
+    dav = content[4] if len(content) > 4 else 0
     f = FREQ2 if fr else FREQ1
     ds = xr.Dataset({"efth": (("site", "freq", "dir"), efth(2 if e else 1).copy())},
                     coords={"site": [1, 2], "freq": f.copy(), "dir": (DIR2 if dsd else DIR1).copy()})
-    da = xr.DataArray(efth(1)[0].copy(), dims=["freq", "dir"], coords={"freq": FREQ1.copy(), "dir": (DIR2 if dad else DIR1).copy()}, name="efth")
+    da = xr.DataArray((efth(2)[1] if dav else efth(1)[0]).copy(), dims=["freq", "dir"], coords={"freq": FREQ1.copy(), "dir": (DIR2 if dad else DIR1).copy()}, name="efth")
     return ds, da
 
 
@@ -82,6 +83,14 @@ def apply_op(op, ds, da, env):
         da["dir"] = DIR2.copy()
     elif op == "set_freq":
         ds["freq"] = FREQ2.copy()
+    elif op == "efth_values_inplace":
+        ds["efth"].values[...] = efth(2)       # same Variable, same buffer, new numbers
+    elif op == "coords_dir":
+        ds.coords["dir"] = DIR2.copy()         # coordinate replaced through .coords (the efth Variable object is kept)
+    elif op == "coords_freq":
+        ds.coords["freq"] = FREQ2.copy()
+    elif op == "da_values_inplace":
+        da.values[...] = efth(2)[1]
     elif op in ("ws_shapeA", "ws_shapeB"):
         from wavespectra.partition.partition import np_ptm3
         nf, nd = (3, 4) if op == "ws_shapeA" else (4, 5)
@@ -102,7 +111,7 @@ def apply_op(op, ds, da, env):
 
 
 def content_after(hist):
-    c = [0, 0, 0, 0]
+    c = [0, 0, 0, 0, 0]
     for op in hist:
         if op in EDITS:
             c[EDITS[op]] = 1
@@ -128,14 +137,18 @@ def battery(ds, da):
         else:
             obs[name] = (np.asarray(r, dtype=float), "", ())
 
+    light = os.environ.get("C18_BATTERY", "full") == "light"
     for who, acc in (("ds.spec", lambda: ds.spec), ("ds.efth.spec", lambda: ds.efth.spec)):
         put(who + ".hs", acc().hs())
-        put(who + ".tp", acc().tp())
         put(who + ".dm", acc().dm())
-        put(who + ".dspr", acc().dspr())
+        if light and who == "ds.efth.spec":
+            continue
+        put(who + ".tp", acc().tp())
         put(who + ".crsd", acc().crsd())
         put(who + ".smooth", acc().smooth(3, 3))
-        put(who + ".stats", acc().stats(["hs", "tm02", "dpm"]))
+        if not light:
+            put(who + ".dspr", acc().dspr())
+            put(who + ".stats", acc().stats(["hs", "tm02", "dpm"]))
     put("ds.efth.spec.dd", ds.efth.spec.dd)
     put("ds.spec.dd", ds.spec.dd)
     put("ds.spec.freq", ds.spec.freq)
@@ -151,9 +164,9 @@ def battery(ds, da):
 def reference_for(content):
     """Run the battery in a fresh interpreter on freshly built objects with these contents."""
     env = dict(os.environ, PYTHONHASHSEED="0", VERIF_REPO=common.repo_root())
-    code = ("import sys,pickle; sys.path.insert(0, %r); from mc import common; common.load_wavespectra(); "
+    code = ("import sys,pickle,os; os.environ['C18_BATTERY']=%r; sys.path.insert(0, %r); from mc import common; common.load_wavespectra(); "
             "from mc.props import c18; ds,da=c18.build(%r); ds0,da0=c18.build(%r); o=c18.battery(ds,da); "
-            "sys.stdout.buffer.write(pickle.dumps(o))") % (common.VERIF, tuple(content), tuple(content))
+            "sys.stdout.buffer.write(pickle.dumps(o))") % (os.environ.get("C18_BATTERY", "full"), common.VERIF, tuple(content), tuple(content))
     r = subprocess.run([sys.executable, "-c", code], capture_output=True, env=env, cwd=common.VERIF)
     if r.returncode != 0:
         raise RuntimeError("reference process failed: " + r.stderr.decode()[-2000:])
@@ -187,7 +200,7 @@ def hidden_state(ds, da):
 
 def run_history(hist, REF):
     """executes one history on fresh objects in THIS process (callers fork first). Returns (violations, state key)."""
-    ds, da = build((0, 0, 0, 0))
+    ds, da = build((0, 0, 0, 0, 0))
     env = {}
     err = None
     for i, op in enumerate(hist):
@@ -270,37 +283,41 @@ def replay(case):
     return vs
 
 
+REDUCED = ["hs", "smooth", "crsd", "ws_shapeA", "other_object"] + sorted(EDITS)
+
+
 def histories(depth, tier):
-    for d in range(1, depth + 1):
-        for h in itertools.product(OPS, repeat=d):
-            if d >= 3 and tier == "quick":
-                # quick: depth 3 restricted to histories that contain an edit or end in one (pure call sequences are covered at depth 2)
-                if not any(op in EDITS for op in h):
-                    continue
-            if d >= 4:
-                # thorough depth 4: at least two edits or an edit after two calls
-                if sum(op in EDITS for op in h) < 1:
-                    continue
-            yield h
+    """quick: all sequences to depth 2 over the full alphabet + depth 3 over the reduced alphabet (one representative per kind of
+    pure call) that contain an edit; thorough: depth 3 over the full alphabet + depth 4 over the reduced one (with an edit)."""
+    out = []
+    full_depth = 2 if tier == "quick" else 3
+    for d in range(1, full_depth + 1):
+        out.extend(itertools.product(OPS, repeat=d))
+    d = full_depth + 1
+    for h in itertools.product(REDUCED, repeat=d):
+        if any(op in EDITS for op in h):
+            out.append(h)
+    return out
 
 
 def run(rep, tier, seed, parts=None):
     common.load_wavespectra()
+    os.environ["C18_BATTERY"] = "light" if tier == "quick" else "full"
     depth = 3 if tier == "quick" else 4
-    rep.rule = ("all operation sequences up to depth %d over the 14-operation alphabet %s (quick: depth-3 sequences without any in-place edit "
-                "are skipped; thorough: depth 4 requires at least one edit); each history runs on freshly built objects in a freshly "
+    rep.rule = ("all operation sequences up to depth %d over the 18-operation alphabet %s (quick: full alphabet to depth 2, depth 3 over a reduced 13-operation "
+                "alphabet with at least one edit, 17-observation battery; thorough: full alphabet to depth 3, reduced alphabet with an edit at depth 4, 28-observation battery); each history runs on freshly built objects in a freshly "
                 "forked child and its 28-observation battery is compared with a fresh interpreter's battery on a freshly constructed "
                 "object of the same contents. A state is (content, accessor/memo/global-table signature) after a history; transitions = "
                 "operations executed; traces = histories executed (the implementation itself is what runs)." % (depth, OPS))
-    rep.assumptions = ["in-place edits assign fixed alternative values, so there are 16 content states and one fresh-interpreter reference per state",
+    rep.assumptions = ["in-place edits assign fixed alternative values, so there are 32 content states and one fresh-interpreter reference per state",
                        "fork gives every history a process whose hidden state is that of a process which imported the library and ran nothing"]
-    contents = list(itertools.product((0, 1), repeat=4))
+    contents = list(itertools.product((0, 1), repeat=5))
     REF = {}
     for c, ob in zip(contents, common.pmap(reference_for, contents)):
         if isinstance(ob, common.Hang):
             raise RuntimeError("reference computation failed for %s: %s" % (c, ob.why))
         REF[c] = ob
-    hs = list(histories(depth, tier))
+    hs = histories(depth, tier)
     if seed % 2 == 1:
         hs = hs[::-1]
     CH = 24
